@@ -217,6 +217,45 @@ class C16(Prop):
                 if cl:
                     out.append(Failure(case, obs, cl))
         ctx['notes'].append(f'proxy with two addresses, the first refusing: {n} real-socket scenarios')
+        # credential objects other than a plain SOCKSUserAuth(user, password): SOCKSRandomAuth() (fresh random user name and
+        # password on every read - Tor stream isolation) IS a credential
+        import re
+        from aiorpcx import socks
+        from aiorpcx.util import NetAddress
+        nr = 0
+        for mk, label in ((lambda: socks.SOCKSRandomAuth(), 'SOCKSRandomAuth()'), (lambda: socks.SOCKSUserAuth('u', 'p'), "SOCKSUserAuth('u', 'p')")):
+            for host in ('example.com', '1.2.3.4', '::1'):
+                for selected in (2, 0):
+                    auth = mk()
+                    stream = bytes([5, selected]) + (b'\x01\x00' if selected == 2 else b'') + b'\x05\x00\x00\x01\x00\x00\x00\x00\x00\x00'
+                    loop = sc.FakeLoop(stream, [])
+                    client = socks.SOCKS5(NetAddress(host, 443), auth)
+                    proxy = socks.SOCKSProxy(NetAddress('localhost', 1080), socks.SOCKS5, auth)
+                    coro = proxy._handshake(client, None, loop)
+                    try:
+                        coro.send(None)
+                        res = 'suspended'
+                        coro.close()
+                    except StopIteration:
+                        res = 'done'
+                    except Exception as e:
+                        res = sc.classify_exc(e)
+                    nr += 1
+                    sent = loop.sent
+                    ok = res == 'done' and len(sent) == (3 if selected == 2 else 2) and sent[0] == b'\x05\x02\x00\x02'
+                    if ok and selected == 2:
+                        if label == 'SOCKSRandomAuth()':
+                            ok = re.fullmatch(rb'\x01\x40[0-9a-f]{64}\x40[0-9a-f]{64}', sent[1], re.DOTALL) is not None
+                        else:
+                            ok = sent[1] == b'\x01\x01u\x01p'
+                    if not ok:
+                        out.append(Failure({'kind': 'credential_object', 'auth': label, 'host': host, 'method_selected_by_proxy': selected},
+                                           {'res': res, 'sent': [list(m) for m in sent]},
+                                           f'SOCKS5 with {label}: the greeting must offer user name/password (05 02 00 02), the RFC 1929 message must follow '
+                                           f'iff the proxy selects method 2, then the CONNECT; outcome {res}'))
+                        break
+        ctx['extra_evals'] += nr
+        ctx['notes'].append(f'SOCKS5 with SOCKSRandomAuth() / SOCKSUserAuth, proxy selecting either method: {nr} exchanges')
         return out[:3]
 
     def classify(self, case, obs, clause):
